@@ -169,6 +169,9 @@ def observe_template(spec):
 LIT = {'A': '"a"', 'B': '"b"', '_C': '"c"', 'D': '"d"'}
 
 
+RX_ALTS = [False]
+
+
 def term_text(e):
     """the expression written as the body of a terminal (string literals for the tokens)"""
     k = e['k']
@@ -177,6 +180,10 @@ def term_text(e):
     if k == 'seq':
         return ' '.join(term_text(x) for x in e['items'])
     if k == 'alt':
+        if RX_ALTS[0] and all(x['k'] == 'tok' for x in e['alts']):
+            # the same alternation written by the user as ONE regexp with a top-level | (hunted defect 45: concatenation
+            # joined such a regexp to its neighbours without grouping - /a|b/ "c" became a|bc)
+            return '/%s/' % '|'.join(LIT[x['name']].strip('"') for x in e['alts'])
         return '(' + ' | '.join(term_text(x) for x in e['alts']) + ')'
     w = term_text(e['x']) if e['x']['k'] in ('tok', 'alt', 'maybe') else '(' + term_text(e['x']) + ')'
     if k == 'opt':
@@ -239,6 +246,13 @@ def termexpr_specs(tier, rng):
                     ins.add(tuple(sn[:q] + [sn[q]] + sn[q:]))
                     ins.add(tuple(sn[:q] + [rng.choice(['A', 'B', '_C', 'D'])] + sn[q + 1:]))
         out.append({'G': G, 'gtext': 'start: T\nT: %s\n' % term_text(body), 'inputs': sorted(ins), 'family': 'F_termexpr'})
+        RX_ALTS[0] = True
+        try:
+            rx = 'start: T\nT: %s\n' % term_text(body)
+        finally:
+            RX_ALTS[0] = False
+        if rx != out[-1]['gtext']:
+            out.append({'G': G, 'gtext': rx, 'inputs': sorted(ins), 'family': 'F_termexpr'})
     return out
 
 
